@@ -65,6 +65,9 @@ type c12Route struct {
 	// ID: path identifier (1..3) when R announces with ADD-PATH (case field AddPath), else 0; several entries may
 	// then share a prefix, each is one path with its own stale / re-announced fate
 	ID int `json:"id,omitempty"`
+	// Loop: the route carries the local AS in its AS_PATH: stored in the Adj-RIB-In as rejected, never usable - not when
+	// it is retained as stale, marked LLGR-stale or re-read either
+	Loop bool `json:"loop,omitempty"`
 }
 
 type c12EOR struct {
@@ -122,6 +125,7 @@ func drawC12(t *rapid.T) c12Case {
 			r.Prefix = rapid.IntRange(0, 1).Draw(t, l+"p2") // few prefixes: several identifiers per prefix
 			r.ID = rapid.IntRange(1, 3).Draw(t, l+"id")
 		}
+		r.Loop = rapid.IntRange(0, 5).Draw(t, l+"loop") == 0
 		k := fmt.Sprint(r.V6, r.Prefix, r.ID)
 		if seen[k] {
 			continue
@@ -354,6 +358,9 @@ func (x *c12Run) announce(i int) {
 	if r.NoLLGR {
 		a.Comms = append(a.Comms, uint32(bgp.COMMUNITY_NO_LLGR))
 	}
+	if r.Loop {
+		a.ASPath = []rsSeg{{T: 2, AS: []uint32{x.r.AS, rsLocalAS, 64777}}}
+	}
 	_ = x.sess.send(rsAnnounce(&x.r, r.V6, r.Prefix, uint32(r.ID), a), rsTxOpt(&x.r))
 }
 
@@ -557,7 +564,7 @@ func runC12(t *testing.T) func(c c12Case, st *verifkit.Stats) *verifkit.Failure 
 			m := &c12Model{c: &c, routes: make([]c12State, len(c.Routes))}
 			for i := range c.Routes {
 				x.announce(i)
-				m.routes[i].present = true
+				m.routes[i].present = !c.Routes[i].Loop
 			}
 			x.rival = map[int]bool{}
 			if len(c.Rival) > 0 {
@@ -708,6 +715,9 @@ func runC12(t *testing.T) func(c c12Case, st *verifkit.Stats) *verifkit.Failure 
 			}
 			for _, i := range c.Reannounce {
 				x.announce(i)
+				if c.Routes[i].Loop {
+					continue
+				}
 				if !m.routes[i].present {
 					m.routes[i].present = true // family not preserved: simply a new route
 				}
